@@ -27,7 +27,7 @@ def run(run):
             run.stream("c08", 20000, seed_offset=k)
     return run.finish(
         level="proof",
-        rule="the statement generator of C05 (file-backed, temporary and STDIN tables of 0-400 rows, @@CPU 1-4, sequences with interleaved COMMIT) with 1-2 faulty statements before every regular one; corpus first (cancellation at every ctx.Err() call of two-target UPDATE/DELETE; the same over 40- and 100-record file tables re-loaded before every attempt, so that the check falls into the LOADING; CREATE TABLE failing while tables are open - name colliding case-insensitively with an open table, existing file, duplicate columns, failing AS SELECT - with the directory incl. lock/temp files compared (law failed_statement_changed_files); failures after the source query was evaluated, each followed by allocating statements, with poisoning; COMMIT failing at every context check then shorter data then COMMIT, three file tables two of them larger than the write buffer); fault kinds: div (k-th record's SET/VALUES/DEFAULT), subq (scalar sub-query / INSERT..SELECT / CREATE..AS SELECT), where, len (k-th VALUES row / select width), field, dup (SET twice, multi-table double write, duplicate column), keynotset, keyfield, pos, exists, cancel (k-th ctx.Err() call, incl. a scan over every k for multi-target DELETE/UPDATE); k drawn over first / middle / last / absent records; non-trivial = distinct (statement kind, fault, error code, storage, size band, failure position, cpu) signature of FAILED statements",
+        rule="the statement generator of C05 (file-backed, temporary and STDIN tables of 0-400 rows, @@CPU 1-4, sequences with interleaved COMMIT / ROLLBACK) with 1-2 faulty statements before every regular one; corpus first (cancellation at every ctx.Err() call of two-target UPDATE/DELETE; the same over 40- and 100-record file tables re-loaded before every attempt, so that the check falls into the LOADING; CREATE TABLE failing while tables are open - name colliding case-insensitively with an open table, existing file, duplicate columns, failing AS SELECT - with the directory incl. lock/temp files compared (law failed_statement_changed_files); failures after the source query was evaluated, each followed by allocating statements, with poisoning; COMMIT failing at every context check then shorter data then COMMIT, three file tables two of them larger than the write buffer); fault kinds: div (k-th record's SET/VALUES/DEFAULT), subq (scalar sub-query / INSERT..SELECT / CREATE..AS SELECT), where, len (k-th VALUES row / select width), field, dup (SET twice, multi-table double write, duplicate column), keynotset, keyfield, pos, exists, cancel (k-th ctx.Err() call, incl. a scan over every k for multi-target DELETE/UPDATE); k drawn over first / middle / last / absent records; non-trivial = distinct (statement kind, fault, error code, storage, size band, failure position, cpu) signature of FAILED statements",
         trusted_base=BASE_TRUST + ["the control run (a second processor on a copy of the repository) as the oracle for 'earlier successful statements only'"],
         checker_cmd="cd /verif/lean && lake build Csvq.Props.C08 && lake env lean <#print axioms for every theorem>",
     )
